@@ -299,9 +299,9 @@ type execResult struct {
 	labels    []string
 	post      []string // lexer activity after the caller's return point
 	lateReads int
-	alive     int // lexer threads not finished when the caller returned
+	alive     int  // lexer threads not finished when the caller returned
 	topAlive  bool // the top-level lexer (first thread spawned by the caller) was among them
-	stuck     int // threads parked forever at the end
+	stuck     int  // threads parked forever at the end
 	steps     int
 }
 
